@@ -62,6 +62,7 @@ fn main() {
         no_shadow: args.iter().any(|a| a == "--no-shadow"),
         sample_mod: arg(&args, "--sample-mod").and_then(|s| s.parse().ok()),
         flags: args.clone(),
+        routes: arg(&args, "--routes").map(|s| s.split(',').map(|x| x.to_string()).collect()),
     };
     let t0 = std::time::Instant::now();
     let rep = match monitor.as_str() {
